@@ -82,7 +82,7 @@ def jobs(tier, seed):
             out.append(('e2e-o%d-%s' % (order, zk), dict(kind='e2e', method='above', path='radial', order=order, zk=zk, p=0, ratio=4.0, cplx=False)))
         if order in (2, 4):
             # the whole __call__ (not only the rows inside _lim) with complex-valued g, from below, along the spiral
-            for method, path in ((('below', 'radial'), ('above', 'spiral'), ('below', 'spiral')) if order == 2 else (('below', 'radial'),)):
+            for method, path in ((('below', 'radial'), ('above', 'spiral')) if order == 2 else (('below', 'radial'),)):
                 out.append(('e2e-o%d-zhalf-%s-%s-cplx' % (order, method, path),
                             dict(kind='e2e', method=method, path=path, order=order, zk='zhalf', p=0, ratio=4.0, cplx=True)))
     for p in (1, 2, 3):
@@ -157,13 +157,15 @@ Z0_ORDER = [1.0, 0.5, 0.75, 0.25]
 
 def nan_patterns(job, lim):
     nan = float('nan')
-    for n, zshape in ((1, (1,)), (2, (2,)), (3, (3,)), (4, (2, 2))):
+    for n, zshape, fortran in ((1, (1,), False), (2, (2,), False), (3, (3,), False), (4, (2, 2), False), (4, (2, 2), True)):
         for mask in range(1, 2 ** n):
             pattern = [(mask >> i) & 1 for i in range(n)]      # 1 = NaN at z0 (C order of the flattened z0)
             vals = [sn.real_var('v%d' % i) for i in range(n)]
             # points in NON-ascending order (a reordering of the singular points must be visible)
             z0flat = np.array(Z0_ORDER[:n])
             z0 = z0flat.reshape(zshape)
+            if fortran:
+                z0 = np.asfortranarray(z0)        # a z0 that is not C-contiguous (e.g. a transposed grid)
             calls = []
 
             def f(z, *a, **k):
@@ -172,7 +174,9 @@ def nan_patterns(job, lim):
                     out = np.empty(n, dtype=object)
                     for i in range(n):
                         out[i] = nan if pattern[i] else vals[i]
-                    return out.reshape(zshape).view(sn.SymArr)
+                    out = out.reshape(zshape)
+                    # an elementwise function keeps the memory layout of its argument
+                    return (np.asfortranarray(out) if fortran else out).view(sn.SymArr)
                 # every point has its own limit value, identified by the point it is close to (steps are <= 2**-12)
                 zz = np.real(np.asarray(z)).ravel()
                 return np.array([10.0 + int(np.argmin(np.abs(z0flat - v))) for v in zz]).reshape(np.shape(z))
@@ -200,7 +204,7 @@ def nan_patterns(job, lim):
             for c in cl[1:]:
                 ok &= c.shape == (len(nan_pos),) and all(0 < abs(c[j] - z0[i]) < 0.01 for j, i in enumerate(nan_pos))
             if not job.confirm('pattern %s: finite entries returned unchanged, limit taken at the NaN positions only' % pattern, bool(ok)):
-                job.violation('nan', dict(key='C18:nan:replacement', kind='nan', pattern=pattern))
+                job.violation('nan', dict(key='C18:nan:replacement', kind='nan', pattern=pattern, fortran=bool(fortran)))
 
 
 # --------------------------------------------------------------------------
@@ -330,8 +334,10 @@ def e2e(job, lim, order, zk, method='above', path='radial', cplx=False):
         v = sn.as_symc(cm.flat_list(val)[0])
         wre, wim = _parts(coefs[0])
         dr, di = sn.lift(v.re) - wre, sn.lift(v.im) - wim
-        job.prove('Limit(f)(z0) == phi(0)', z3.And(dr <= tau, -dr <= tau, di <= tau, -di <= tau), p.conds(),
-                  dict(key='C18:e2e:limit-missed', kind='e2e', names=names, stronger_than_property=True))
+        # one claim per part: two small LRA queries instead of one conjunction (the spiral / complex case needed up to 60 s)
+        for part, dd in (('real part', dr), ('imaginary part', di)):
+            job.prove('Limit(f)(z0) == phi(0) [%s]' % part, z3.And(dd <= tau, -dd <= tau), p.conds(),
+                      dict(key='C18:e2e:limit-missed', kind='e2e', names=names, stronger_than_property=True), timeout_ms=600000)
         e = cm.flat_list(info.error_estimate)[0]
         job.prove('error_estimate >= 0', sn.lift(e) >= 0, p.conds(), dict(key='C18:e2e:negative-error', kind='e2e'))
 
@@ -404,13 +410,17 @@ def replay(cex):
         zshape = (2, 2) if n == 4 else (n,)
         z0flat = np.array(Z0_ORDER[:n])
         z0 = z0flat.reshape(zshape)
+        fortran = bool(cex.get('fortran'))
+        if fortran:
+            z0 = np.asfortranarray(z0)
         vals = rng.normal(size=n)
         calls = []
 
         def f(z):
             calls.append(1)
             if len(calls) == 1:
-                return np.where(np.array(pattern) == 1, np.nan, vals).reshape(zshape)
+                out = np.where(np.array(pattern) == 1, np.nan, vals).reshape(zshape)
+                return np.asfortranarray(out) if fortran else out
             zz = np.real(np.asarray(z)).ravel()
             return np.array([10.0 + int(np.argmin(np.abs(z0flat - v))) for v in zz]).reshape(np.shape(z))
         try:
